@@ -78,13 +78,25 @@ def dispatch_events(prog, fi, g):
     return ev
 
 
-def eval_predicate(prog, fi, expr, request_param="request"):
-    """truth table of the predicate over the id classes of spec.ID_CASES"""
+def eval_predicate(prog, fi, expr, request_param="request", tier="quick"):
+    """truth table of the predicate over the id classes of spec.ID_CASES (thorough tier: more id values of each class, and
+    each of them inside a 2.0 request, a 1.0 request and a request with parameters)"""
     rows = []
-    for (label, value, expected) in spec.ID_CASES:
+    cases = [(l, v, e, None) for (l, v, e) in spec.ID_CASES]
+    if tier == "thorough":
+        more = [("'0'", "0", False), ("' '", " ", False), ("'null'", "null", False), ("'None'", "None", False), ("-0.0", -0.0, False),
+                ("10**20", 10 ** 20, False), ("-7", -7, False), ("1e-9", 1e-9, False), ("'\u00e9'", "\u00e9", False)]
+        for ctx in ("1.0", "params"):
+            cases += [(l + " [" + ctx + "]", v, e, ctx) for (l, v, e) in spec.ID_CASES + more]
+        cases += [(l, v, e, None) for (l, v, e) in more]
+    for (label, value, expected, ctx) in cases:
         ev = shape.subscript_patch(shape.Evaluator(prog, fi.module))
         keys = {"jsonrpc": shape.K("2.0"), "method": shape.K("m")}
-        if label != "absent":
+        if ctx == "1.0":
+            keys = {"method": shape.K("m"), "params": shape.L([])}
+        elif ctx == "params":
+            keys["params"] = shape.L([shape.K(1)])
+        if not label.startswith("absent"):
             if isinstance(value, list):
                 keys["id"] = shape.L([])
             elif isinstance(value, dict):
@@ -120,7 +132,7 @@ def check(ck):
         raise AnalysisError("anchor vanished: dispatch events in %s (found %d, expected >= 3)" % (where, len(events)))
 
     # ---- C04.3 the predicate --------------------------------------------------
-    rows = eval_predicate(prog, fi, pnode.ast.value, fi.params[1])
+    rows = eval_predicate(prog, fi, pnode.ast.value, fi.params[1], ck.tier)
     for (label, expected, got) in rows:
         ck.require(got == expected, "C04.3", "%s: notification predicate, id %s" % (where, label),
                    "predicate(%s) = %s" % (label, got),
